@@ -502,6 +502,12 @@ fn bombs() -> BigResult {
     one("zstd frame of CALLDATA_LIMIT+1 zeros", 2, z_compress_free(&vec![0u8; L + 1], 3), None);
     one("zstd frame without content size of 2MiB zeros", 2, z_compress_nosize(&vec![0u8; 2 << 20]), None);
     one("zstd frame without content size of CALLDATA_LIMIT zeros", 2, z_compress_nosize(&vec![0u8; L]), Some(L));
+    // just above the limit, within one zstd block (128 KiB) of it and a little beyond: a decoder that checks the
+    // bound only between blocks lets these through
+    for extra in [1usize, 1000, 100_000, 131_072, 131_073, 300_000] {
+        one(&format!("zstd frame without content size of CALLDATA_LIMIT+{} zeros", extra), 2, z_compress_nosize(&vec![0u8; L + extra]), None);
+    }
+    one("zstd frame without content size of 300000 patterned bytes", 2, z_compress_nosize(&(0..300_000usize).map(|i| (i % 251) as u8).collect::<Vec<u8>>()), Some(300_000));
     { // two frames, each announcing 600 KiB
         let f = z_compress_free(&vec![7u8; 600 << 10], 3);
         let mut two = f.clone(); two.extend_from_slice(&f);
